@@ -211,3 +211,91 @@ def layers_for(prop):
 
 
 CHECKS = {'C15': run_c15}
+
+
+# =============================================================================================
+# C17: version metadata - fold of the independently decoded MANIFEST = what was in effect; atomic switch
+# =============================================================================================
+CMP_NAMES = {0: 'leveldb.BytewiseComparator', 1: 'verif.reverse', 2: 'verif.lenfirst'}
+
+
+def manifest_lines(evs, keepdir):
+    """One trace line per closed database: decoded edits of the CURRENT manifest + reported + recovered."""
+    cmpkind = 0
+    for e in evs:
+        if e['e'] == 'keys': cmpkind = e['cmp']; break
+    out = []
+    last_rep = None; start = None
+    i = 0
+    while i < len(evs):
+        e = evs[i]
+        if e['e'] == 'ApplyStart':
+            start = e
+        if e['e'] in ('VersionInstall', 'RecoverManifest'):
+            # counters in effect when the edit was prepared (ApplyStart hook), not the edit's own fields
+            nf, ls = (start['nextfile'], start['lastseq']) if (e['e'] == 'VersionInstall' and start is not None) else (e['enext'], e['eseq'])
+            last_rep = dict(files=e['files'], log=e['log'], prevlog=e['prevlog'], nextfile=nf, lastseq=ls)
+        if e['e'] == 'ManifestKept' and e['current'] == 1 and last_rep is not None:
+            data = open(os.path.join(keepdir, e['file']), 'rb').read()
+            edits = []
+            for pl, end, first in fmt.logical_records(data):
+                d = fmt.decode_edit(pl)
+                edits.append(dict(cmp=d['comparator'] or '', log=-1 if d['log'] is None else d['log'], prevlog=-1 if d['prevlog'] is None else d['prevlog'],
+                                  nextfile=-1 if d['nextfile'] is None else d['nextfile'], lastseq=-1 if d['lastseq'] is None else d['lastseq'],
+                                  add=[[a[0], a[1], a[2]] for a in d['added']], **{'del': [[x[0], x[1]] for x in d['deleted']]}))
+            line = dict(e='manifest', comparator=CMP_NAMES[cmpkind], edits=edits, reported=last_rep, bytes=len(data), name=e['name'])
+            # the recovery that follows, if any
+            for f in evs[i + 1:i + 40]:
+                if f['e'] == 'RecoverManifest':
+                    line['recovered'] = dict(files=f['files'], log=f['log'], nextfile=f['nextfile'], lastseq=f['lastseq']); break
+                if f['e'] == 'Reset': break
+            out.append(line)
+        i += 1
+    return out
+
+
+def c17_fold_layer(prop, tier, seed, out):
+    from . import seqrun as sr
+    quick = tier == 'quick'
+    lib = c.build_lib(); exe = c.build_driver('seq', lib)
+    plan = [('deep', 4, 500), ('mixed', 3, 500), ('l0chain', 3, 400), ('bigval', 2, 200)] if quick else [('deep', 40, 1000), ('mixed', 40, 1000), ('l0chain', 40, 600), ('bigval', 20, 400)]
+    execs = []
+    for pi, (profile, runs, steps) in enumerate(plan):
+        for i in range(runs): execs.append(sr.Exec(seed * 100000 + 70000 + pi * 1000 + i, steps, profile))
+    sr.run_campaign(exe, execs)
+    lines = []
+    for ex in execs:
+        if ex.rc != 0:
+            raise Broken('seq driver failed in C17 fold layer (exit %s); see C01' % ex.rc)
+        try:
+            lines += manifest_lines(sr.load_events(ex.trace), os.path.join(ex.dir, 'db.keep'))
+        except ValueError as ve:
+            rd = c.replay_dir(prop, 'edit'); json.dump(dict(kind='seq', exec=ex.desc(), why=str(ve)), open(os.path.join(rd, 'replay.json'), 'w'))
+            out.violation('a MANIFEST written by lcdb is not decodable by the independent decoder: %s' % ve, rd, dict(kind='edit_decode'))
+    d = c.scratch('edt'); tp = os.path.join(d, 't.ndjson')
+    with open(tp, 'w') as f:
+        for ln in lines: f.write(json.dumps(ln, separators=(',', ':')) + '\n')
+    st = dict(manifests=len(lines), edits=sum(len(l['edits']) for l in lines), executions=len(execs), states=0, transitions=0)
+    if lines:
+        r = c.trace_validate('EditTrace', 'EditTrace.cfg', tp, timeout=900)
+        st['states'] = r['res'].distinct; st['transitions'] = r['res'].generated
+        if not r['accepted']:
+            bad = lines[r['prefix']] if r['prefix'] is not None and r['prefix'] < len(lines) else None
+            rd = c.replay_dir(prop, 'edit'); shutil.copy(tp, os.path.join(rd, 'trace.ndjson'))
+            slim = None if bad is None else dict(name=bad['name'], n_edits=len(bad['edits']), reported=bad['reported'], recovered=bad.get('recovered'), last_edit=bad['edits'][-1] if bad['edits'] else None)
+            json.dump(dict(kind='edit', prop=prop, line=r['prefix'], event=slim), open(os.path.join(rd, 'replay.json'), 'w'), indent=1)
+            out.violation('EditTrace: replaying the independently decoded MANIFEST does not reproduce what was in effect: %s' % json.dumps(slim)[:400], rd, dict(kind='edit_fold'))
+        st['sample'] = dict(edits=lines[len(lines) // 2]['edits'][-2:], reported=lines[len(lines) // 2]['reported'])
+    for ex in execs:
+        if ex.dir: c.rmtree(ex.dir)
+    c.rmtree(d)
+    return {'EditTrace': st}
+
+
+def run_c17(tier, seed):
+    from . import p_disk
+    p_disk.CFG['C17'] = ['ModelSyncedSurvive', 'RecOpenOk', 'RecNothingElse']
+    return p_disk.run_disk('C17', tier, seed, extra=c17_fold_layer)
+
+
+CHECKS['C17'] = run_c17
